@@ -1023,7 +1023,7 @@ func runC02(c *Ctx) {
 		nstop := 0
 		for _, rc := range g.ReturnCases() {
 			rv := rc.Vals[0]
-			if b, ok := constBool(rv); ok {
+			if b, ok := decideBool(rv, g.CaseFacts(rc)); ok {
 				if b {
 					continue // keep scanning
 				}
@@ -1677,6 +1677,9 @@ func (x *pmmx) c03r4() {
 			if !ok {
 				continue
 			}
+			if m.helperOf(call) != nil {
+				continue // spliced: its calls are examined here, its result through the return cases
+			}
 			res := call.Common().Signature().Results()
 			idx := -1
 			for i := 0; i < res.Len(); i++ {
@@ -1694,8 +1697,8 @@ func (x *pmmx) c03r4() {
 			var ev ssa.Value
 			if res.Len() == 1 {
 				ev = call
-			} else if refs := call.Referrers(); refs != nil {
-				for _, r := range *refs {
+			} else {
+				for _, r := range usersOf(call) {
 					if ex, ok := r.(*ssa.Extract); ok && ex.Index == idx {
 						ev = ex
 					}
@@ -1728,14 +1731,12 @@ func (x *pmmx) c03r4() {
 			}
 			// returned directly?
 			direct := false
-			if refs := ev.Referrers(); refs != nil {
-				for _, r := range *refs {
-					if _, ok := r.(*ssa.Return); ok {
-						direct = true
-					}
+			for _, r := range usersOf(ev) {
+				if _, ok := r.(*ssa.Return); ok && r.Parent() == fn {
+					direct = true
 				}
 			}
-			if direct && len(*ev.Referrers()) == 1 {
+			if direct && len(usersOf(ev)) == 1 {
 				c.ok("C03.R4", key, "returned directly", g.posOf(n))
 				continue
 			}
@@ -1768,10 +1769,9 @@ func (x *pmmx) c03r4() {
 				}
 				// all returns reachable without passing another call
 				r := g.Reach([]int{start}, nil, func(k int) bool { _, isCall := g.Ins[k].(*ssa.Call); return isCall && k != start })
-				for k := range g.Ins {
-					if r[k] && ret(k) {
-						rv := g.Ins[k].(*ssa.Return).Results
-						if !isEv(rv[len(rv)-1]) {
+				for _, rc := range g.ReturnCases() {
+					if r[rc.At] {
+						if !isEv(rc.Vals[len(rc.Vals)-1]) {
 							bad = "on the failure side the function does not return this error"
 						}
 					}
